@@ -5,6 +5,10 @@ use crate::stream::Stream;
 use crate::user::User;
 
 #[cfg(feature = "clpfd")]
+use crate::compound::CompoundObject;
+#[cfg(feature = "clpfd")]
+use crate::operator::conj::Conj;
+#[cfg(feature = "clpfd")]
 use crate::operator::onceo;
 
 use crate::state::map_sum::map_sum;
@@ -12,6 +16,20 @@ use crate::state::map_sum::map_sum;
 /// Enforces the finite domain constraints by expanding the domains into sequences of numbers,
 /// and returning solutions for all numbers. Adds a `x == d` substitution for each `d` in
 /// the domain.
+/// Collects the term fields of a compound object, descending into nested objects.
+#[cfg(feature = "clpfd")]
+fn compound_fields<U: User, E: Engine<U>>(
+    object: &dyn CompoundObject<U, E>,
+    fields: &mut Vec<LTerm<U, E>>,
+) {
+    for child in object.children() {
+        match child.as_term() {
+            Some(term) => fields.push(term.clone()),
+            None => compound_fields(child, fields),
+        }
+    }
+}
+
 #[cfg(feature = "clpfd")]
 fn force_ans<U: User, E: Engine<U>>(x: LTerm<U, E>) -> Goal<U, E> {
     proto_vulcan!(fngoal move |solver, state| {
@@ -40,6 +58,13 @@ fn force_ans<U: User, E: Engine<U>>(x: LTerm<U, E>) -> Goal<U, E> {
                     force_ans(tail),
                 ]);
                 g.solve(solver, state)
+            },
+            (LTermInner::<U, E>::Compound(object), _) => {
+                // Label the fields of a compound term like the elements of a list.
+                let mut fields: Vec<LTerm<U, E>> = vec![];
+                compound_fields(object.as_ref(), &mut fields);
+                let goals: Vec<Goal<U, E>> = fields.into_iter().map(|f| force_ans(f)).collect();
+                Conj::from_vec(goals).solve(solver, state)
             },
             (_, _) => solver.start(&Goal::Succeed, state),
         }
